@@ -81,6 +81,55 @@ def make_query(rng, ref, name, nrec=None, conflict=False, rich=True):
     return recs
 
 
+def make_query_sandwich(rng, ref, name):
+    """3-5 records of one query built around one contested stretch [a, b): two records put DIFFERENT bases on it, and
+    records that do not put a base there (not covering it, deleting it with D, skipping it with N) sit before, between
+    and after them in file order - every arrangement of {base, other base, '-', '*'} within a column gets exercised."""
+    n = len(ref)
+    truth = gen.mutate(rng, ref, p_sub=0.1, p_amb=0.03, p_gap=0, p_lower=0).replace("?", "N")
+    a = rng.randint(0, n - 2)
+    b = rng.randint(a + 1, min(n, a + 4))
+    other = "".join(rng.choice([c for c in "ACGT" if c != truth[i]]) for i in range(a, b))
+    alt = truth[:a] + other + truth[b:]
+
+    def cover(t):
+        s0 = rng.randint(max(0, a - 3), a)
+        e0 = rng.randint(b, min(n, b + 3))
+        cig = [("M", e0 - s0)]
+        return {"name": name, "flag": 2048, "pos": s0, "cigar": cig, "seq": build_seq(rng, cig, s0, t)}
+
+    def hole():
+        kind = rng.choice(["away", "D", "N"])
+        if kind == "away" and (a >= 1 or b < n):
+            if a >= 1 and (b >= n or rng.random() < 0.5):
+                e0 = rng.randint(1, a); s0 = rng.randint(0, e0 - 1)
+            else:
+                s0 = rng.randint(b, n - 1); e0 = rng.randint(s0 + 1, n)
+            cig = [("M", e0 - s0)]
+            return {"name": name, "flag": 2048, "pos": s0, "cigar": cig, "seq": build_seq(rng, cig, s0, truth)}
+        op = "D" if kind == "D" else "N"
+        if a >= 1 and b < n:
+            cig = [("M", 1), (op, b - a), ("M", 1)]
+            s0 = a - 1
+        elif b < n:
+            cig = [(op, b - a), ("M", 1)]
+            s0 = a
+        elif a >= 1:
+            cig = [("M", 1), (op, b - a)]
+            s0 = a - 1
+        else:
+            cig = [(op, b - a)]
+            s0 = a
+        return {"name": name, "flag": 2048, "pos": s0, "cigar": cig, "seq": build_seq(rng, cig, s0, truth)}
+
+    order = rng.choice([["X", "h", "Y"], ["Y", "h", "X"], ["h", "X", "h", "Y"], ["X", "h", "h", "Y", "h"], ["X", "Y", "h"], ["h", "X", "Y"]])
+    recs = []
+    for k in order:
+        recs.append(cover(truth) if k == "X" else cover(alt) if k == "Y" else hole())
+    recs[0]["flag"] = 0
+    return recs
+
+
 def noise_record(rng, ref, name):
     """An unmapped (0x4) or secondary (0x100) record that must never contribute."""
     n = len(ref)
